@@ -1520,6 +1520,9 @@ namespace link_layer {
                 if ( output.size )
                 {
                     result = handle_ll_control_data( pdu, output );
+
+                    // every control PDU can queue a connection event; deliver them now to not overflow the event queue
+                    this->template handle_connection_events< link_layer< Server, ScheduledRadio, Options... > >();
                     this->free_ll_l2cap_received();
                     pdu = this->next_ll_l2cap_received();
                 }
